@@ -50,17 +50,20 @@ CLAIMS = {
         ref='4/C05'),
     'C06': dict(
         technique='static analysis: use analysis (suit identity only) + folding of available_cards on every hand-pattern x lead class; path summaries of the wrappers; call-site provenance for RandomPlay and the client',
-        text='available_cards equals the follow-suit rule on all hand patterns (31 hands over a 5-card pool x 5 leads; sufficient because cards '
-             'are touched only through suit identity); current_available_cards passes card 0 of the trick or None iff empty; wrappers pass the '
-             'right hand; RandomPlay returns random.choice over current_available_cards(hand) of its own argument; the client feeds it the sets '
-             'its observer mutates.',
+        text='available_cards equals the follow-suit rule on every hand pattern of a 6-card pool x each of the 52 cards as the card led (and no '
+             'lead); a use analysis (cards reach only suit-identity tests and container operations) makes the patterns exhaustive, otherwise no '
+             'verdict unless a counterexample is found; current_available_cards is folded on (current trick of 0..3 cards, 5 trump denominations, '
+             'hand patterns): the suit led is that of the FIRST card, trump is irrelevant; wrappers pass the right hand; RandomPlay returns '
+             'random.choice over current_available_cards(hand) of its own argument; on the communication skeleton the bundled client always hands '
+             'its policy the hand of the seat on turn (own / dummy). Rests on C05 (rule .D).',
         ref='4/C06'),
     'C07': dict(
         technique='static analysis: constant-folded vulnerability tables, reaching-definition routing check, role-bound undertrick tables vs closed form',
         text='PARTIAL. Decided: the vulnerability handed to the table function is that of declarer\'s side for all 4 declarers x 4 board '
              'vulnerabilities (Contract.is_vul -> Player.is_vul -> Pair.is_vul folded), argument routing in calc_score, passed-out => 0, the six '
-             'undertrick tables bound by the guards selecting them and compared with the Laws\' closed form. NOT decided: the arithmetic of '
-             'calc_bid_score per input (runtime values; already enumerated exhaustively by the existing suite).',
+             'undertrick penalties by folding calc_bid_score on its complete down domain (35 bids x 3 doubling states x 2 vulnerabilities x every '
+             'trick count short of the contract) against the closed form of the Laws. NOT decided: the made-contract arithmetic of calc_bid_score '
+             '(runtime values; already enumerated exhaustively by the existing suite).',
         ref='4/C07'),
     'C15': dict(
         technique='static analysis: table extraction by constant folding of the converter ASTs over complete finite domains; whole-table inverse/injectivity comparison',
@@ -82,8 +85,10 @@ CLAIMS['C12'] = dict(
     text='Writer record typed expression by expression and compared with log_format.schema.json ($ref resolved, required keys unconditional); '
          'each key serialises the type the reader field declares, each reader field is computed from exactly its key(s) through the inverse '
          'converter (inverse tables: C15); no raw JSON value reaches a slot declared Player/Pair/Suit/Vul/Bid/Card/Contract/Hands; the literals '
-         'of open/_write_content/close form valid JSON around 0..3 records; tags agree with the parser. Not decided: escaping of arbitrary '
-         'Unicode (delegated to json.dumps, call site checked).',
+         'of open/_write_content/close form valid JSON around 0..3 records; tags agree with the parser; no JSON value is used as a truth value '
+         '(R5); whole-document rule R6: sequences of boards (with / without double-dummy table, passed out, no completed trick, 0 tricks) written '
+         'through ONE writer object by folding the real writer, parsed as JSON, read back by folding the real reader and compared field by field '
+         'by value, also as board settings. Not decided: escaping of arbitrary Unicode (delegated to json.dumps; ensure_ascii must stay on).',
     ref='4/C12')
 CLAIMS['C13'] = dict(
     technique='static analysis: typestate (open -> write* -> close on every exit incl. exceptional) by a syntax-directed walk of Server.run; path summaries of __enter__/__exit__/close/_write_content; error-discipline scan',
@@ -105,13 +110,17 @@ CLAIMS['C17'] = dict(
          'yield guarded by non-emptiness (blank-line runs, leading/trailing blank lines), separator pattern fullmatches LF/CRLF/whitespace-only '
          'and no content line, buffers reset unconditionally, %-lines consumed before extraction; parse_board maps each tag to its first value '
          'verbatim for all orders of the 4 tags x extra tags/table rows x LF/CRLF x values over the alphabet incl. runs of spaces; the four tags '
-         'go through Hands.convert_pbn / Player[] / Vul.str_to_vul. Not decided: full PBN commentary grammar.',
+         'go through Hands.convert_pbn / Player[] / Vul.str_to_vul. Whole-file rules: R6 folds the complete reader on 13 layouts x 2 configurations '
+         '(LF/CRLF, blank-line runs, header lines, extra tags, reversed tag order, table sections with indented rows, repeated tags, 255-character '
+         'lines, spellings, repeated board numbers); R7 folds JsonBoardSettingWriter -> JsonParser on lists of 0..4 boards. Not decided: PBN commentary.',
     ref='4/C17')
 CLAIMS['C18'] = dict(
     technique='static analysis: path summary of write_board_result (tag order, separator, value provenance), sibling agreement with the reader separator pattern, write_line folded on every length class, who-may-write the stream, writer lines folded through parse_board',
     text='15 mandatory tags in order on every path; a line fullmatching the reader\'s separator pattern follows the Result tag; the stream is '
          'written only by write_line, whose chunks are <= 255 characters for every length 1..1100 (text used only through len/slice); tag values '
-         'by provenance incl. passed-out arms; the 15 written tag lines are read back verbatim by parse_board for values over the alphabet.',
+         'by provenance per path (passed out / played with 0, 7, 13 tricks); the 15 written tag lines are read back verbatim by parse_board; whole-file '
+         'rule R6: sequences of board results (played, passed out, 0 tricks, repeated board number, a name longer than a line) written through ONE '
+         'writer object, every line <= 255, read back as one game per result with the 15 values and recovered as board settings in order.',
     ref='4/C18')
 
 CLAIMS['C19'] = dict(
